@@ -223,6 +223,8 @@ impl<TStdlib: Stdlib, TStdIn: Input, TStdOut: Printer, TLpt1: Printer> Interpret
                             i = handler_address;
                         }
                         ErrorHandler::Next => {
+                            // the failed statement might have been collecting arguments
+                            self.context.drop_argument_states();
                             i = ctx.nearest_statement_finder.find_next(i);
                         }
                         ErrorHandler::None => {
@@ -435,12 +437,16 @@ impl<TStdlib: Stdlib, TStdIn: Input, TStdOut: Printer, TLpt1: Printer>
             Instruction::BuiltInSub(s) => {
                 // the stacktrace should be already populated by Instruction::PushStack
                 debug_assert!(!self.stacktrace.is_empty());
-                super::built_ins::run_sub(s, self).with_stacktrace(&mut self.stacktrace)?;
+                if let Err(err) = super::built_ins::run_sub(s, self) {
+                    return Err(self.leave_failed_built_in(err));
+                }
             }
             Instruction::BuiltInFunction(f) => {
                 // the stacktrace should be already populated by Instruction::PushStack
                 debug_assert!(!self.stacktrace.is_empty());
-                super::built_ins::run_function(f, self).with_stacktrace(&mut self.stacktrace)?;
+                if let Err(err) = super::built_ins::run_function(f, self) {
+                    return Err(self.leave_failed_built_in(err));
+                }
             }
             Instruction::Label(_) => (), // no-op
             Instruction::Halt => {
@@ -583,6 +589,16 @@ impl<TStdlib: Stdlib, TStdIn: Input, TStdOut: Printer, TLpt1: Printer>
             }
         }
         Ok(())
+    }
+
+    /// A built-in failed. The `PopStack` instruction that follows it will not run
+    /// (the error either ends the program or transfers control to an error handler),
+    /// so the context and the stacktrace entry of the built-in are removed here.
+    /// The error is reported at the position of the call.
+    fn leave_failed_built_in(&mut self, err: RuntimeError) -> RuntimeErrorPos {
+        let call_pos = self.stacktrace.remove(0);
+        self.context.pop();
+        RuntimeErrorPos::new(err, call_pos)
     }
 
     fn choose_printer(&mut self) -> Result<&mut dyn Printer, RuntimeError> {
